@@ -19,6 +19,7 @@ RULE = (
     "(read) synthetic benchmark-format files of 1..1e4 rows. Monitors: the save monitor re-reads the written file; recording wrappers on "
     "matplotlib Axes.plot/scatter/contour/hist capture what is handed to matplotlib (Agg), and the drawn Line2D/PathCollection data are read back; the reader's "
     "DataFrame is compared with the rows written. Non-trivial = at least 3 contour points / data rows; distinct = (kind, contour class or plot, options, seed)."
+    ' Also: reader files with repeated and unsorted time stamps.'
 )
 ASSUMPTIONS = ["matplotlib Agg backend; what reaches Axes.plot/scatter/contour/hist is what is drawn", "written values are compared to the 6 decimals of the format (|diff| <= 0.5e-6 + 1e-12*|v|)"]
 REQUIRED = ["c20.save-rows", "c20.save-header", "c20.plot-contour-line", "c20.reader-rows", "c20.depfunc-line", "c20.isodensity-Z"]
